@@ -44,11 +44,11 @@ theorem quatDot_abs_le_one {x1 y1 z1 w1 x2 y2 z2 w2 : ℝ} (h1 : unitQ x1 y1 z1 
     (h2 : unitQ x2 y2 z2 w2) : |quatDot x1 y1 z1 w1 x2 y2 z2 w2| ≤ 1 :=
   dot_abs_le_one h1 h2
 
-theorem eps_real : (eps : ℝ) = 1 / 4503599627370496 := by
+theorem epsR_so3 : (eps : ℝ) = 1 / 4503599627370496 := by
   show ((1:ℕ):ℝ) / ((4503599627370496:ℕ):ℝ) = _
   norm_num
 
-theorem eps_pos : (0:ℝ) < eps := by rw [eps_real]; norm_num
+theorem epsPos_so3 : (0:ℝ) < eps := by rw [epsR_so3]; norm_num
 
 theorem qErr_real : (qErr : ℝ) = 1 / 10^9 := by
   show ((1:ℕ):ℝ) / (10:ℝ)^9 = _
@@ -91,12 +91,12 @@ theorem so3Equal_real (x1 y1 z1 w1 x2 y2 z2 w2 : ℝ) :
 theorem so3Dist_pos {x1 y1 z1 w1 x2 y2 z2 w2 : ℝ}
     (h : so3Equal x1 y1 z1 w1 x2 y2 z2 w2 = false) : 0 < so3Dist x1 y1 z1 w1 x2 y2 z2 w2 := by
   rw [so3Equal_real, decide_eq_false_iff_not, not_lt] at h
-  exact lt_of_lt_of_le eps_pos h
+  exact lt_of_lt_of_le epsPos_so3 h
 
 theorem so3Norm_unit {x y z w : ℝ} (h : unitQ x y z w) : so3Norm x y z w = 1 := by
   show (if (eps:ℝ) < |x*x+y*y+z*z+w*w - ((1:ℕ):ℝ)| then Real.sqrt (x*x+y*y+z*z+w*w) else ((1:ℕ):ℝ)) = 1
   unfold unitQ at h
-  rw [h, Nat.cast_one, sub_self, abs_zero, if_neg (not_lt.mpr eps_pos.le)]
+  rw [h, Nat.cast_one, sub_self, abs_zero, if_neg (not_lt.mpr epsPos_so3.le)]
 
 theorem unitQ_inBounds {x y z w : ℝ} (h : unitQ x y z w) : so3InBounds x y z w = true := by
   show decide (|so3Norm x y z w - ((1:ℕ):ℝ)| < (qErr:ℝ)) = true
